@@ -60,12 +60,12 @@ func Bool(b bool) *Term {
 	}
 	return &Term{K: TkBool, Text: "false"}
 }
-func TimeLit(s string) *Term       { return &Term{K: TkTime, Text: "'" + s + "'"} }
-func Var(n string) *Term           { return &Term{K: TkVar, Text: n} }
-func List(es ...*Term) *Term       { return &Term{K: TkList, Args: es} }
-func MapLit(kvs ...*Term) *Term    { return &Term{K: TkMap, Args: kvs} }
+func TimeLit(s string) *Term         { return &Term{K: TkTime, Text: "'" + s + "'"} }
+func Var(n string) *Term             { return &Term{K: TkVar, Text: n} }
+func List(es ...*Term) *Term         { return &Term{K: TkList, Args: es} }
+func MapLit(kvs ...*Term) *Term      { return &Term{K: TkMap, Args: kvs} }
 func Member(o *Term, f string) *Term { return &Term{K: TkMember, Text: f, Args: []*Term{o}} }
-func Sub(v, i *Term) *Term         { return &Term{K: TkSub, Args: []*Term{v, i}} }
+func Sub(v, i *Term) *Term           { return &Term{K: TkSub, Args: []*Term{v, i}} }
 func ObjLit(names []string, vals []*Term) *Term {
 	return &Term{K: TkObj, Names: names, Args: vals}
 }
@@ -148,10 +148,10 @@ func (t *Term) Clone() *Term {
 type Mode int
 
 const (
-	MPlain      Mode = 0
-	MParens     Mode = 1 << iota // every proper sub-expression in redundant parentheses
-	MFlip                        // if(c,a,b) <-> c ? a : b ; f(a,b..) <-> a.f(b..) for identifier-named functions
-	MParenCallee                 // a.f(b) rendered as (a.f)(b)
+	MPlain       Mode = 0
+	MParens      Mode = 1 << iota // every proper sub-expression in redundant parentheses
+	MFlip                         // if(c,a,b) <-> c ? a : b ; f(a,b..) <-> a.f(b..) for identifier-named functions
+	MParenCallee                  // a.f(b) rendered as (a.f)(b)
 )
 
 func (t *Term) Src() string {
@@ -195,9 +195,10 @@ func (b *rbuf) WriteString(s string) {
 	b.sb.WriteString(s)
 	b.n += utf8.RuneCountInString(s)
 }
-func (b *rbuf) WriteByte(c byte) {
+func (b *rbuf) WriteByte(c byte) error {
 	b.sb.WriteByte(c)
 	b.n++
+	return nil
 }
 func (b *rbuf) mark(t *Term) {
 	if b.cols != nil {
